@@ -131,7 +131,7 @@ func runC12(c *core.Ctx) {
 	if up == nil {
 		return
 	}
-	cone := c.P.Cone([]*ssa.Function{up}, nil)
+	cone := c.P.Cone([]*ssa.Function{up}, onlyPkgs("sharding"))
 	aa := core.NewAliasAnalyzer()
 	nApp := 0
 	for _, f := range cone {
